@@ -98,8 +98,12 @@ func Start(id, level string) *Run {
 		if i := strings.LastIndex(fn, "/"); i >= 0 {
 			fn = fn[i+1:]
 		}
-		r.Violation(r.ID+"/busy-loop/"+fn, fmt.Sprintf("the stack never goes idle: for two minutes the harness saw no activity, and two goroutine dumps five seconds apart show the same goroutine running in %s (%s) - the code under test spins", fn, frame), map[string]interface{}{"function": fn, "frame": frame})
-		os.Exit(r.Finish("(aborted: the code under test spins)", nil))
+		if strings.Contains(frame, "[run") {
+			r.Violation(r.ID+"/busy-loop/"+fn, fmt.Sprintf("the stack never goes idle: for two minutes the harness saw no activity, and two goroutine dumps five seconds apart show the same goroutine running in %s (%s) - the code under test spins", fn, frame), map[string]interface{}{"function": fn, "frame": frame})
+		} else {
+			r.Violation(r.ID+"/stuck-on-lock/"+fn, fmt.Sprintf("for two minutes the harness saw no activity while a goroutine of the code under test waits for a lock in %s (%s): whoever holds it is itself waiting - nothing can proceed", fn, frame), map[string]interface{}{"function": fn, "frame": frame})
+		}
+		os.Exit(r.Finish("(aborted: the code under test does not come to rest)", nil))
 	}
 	if b, err := os.ReadFile(filepath.Join(VerifDir, "known_findings.json")); err == nil {
 		var kf knownFile
